@@ -84,6 +84,7 @@ type Path struct {
 	pkgInit  map[*ssa.Package]int // 1 = running, 2 = done
 	steps    int64
 	depth    int
+	suspendable int // >0 while inside verifRunUntilBlocked
 	siteHits map[siteKey]int
 
 	reached    map[string]bool
